@@ -23,15 +23,17 @@ ApplyOpL(v, o, fb) ==
     ELSE IF o.op = "minimize" THEN ApplyLikely(v, LAMBDA l, s, r : MinB(fb, l, s, r))
     ELSE ApplyOp(v, o)
 
-(* the step an implementation WITHOUT the optional UTS #35 fallbacks takes, and (alt) the one an      *)
-(* implementation WITH them takes; properties C06-C08 allow either.  A history is a path of the      *)
+(* the step an implementation WITHOUT the optional UTS #35 fallbacks takes, and (alt) the steps an    *)
+(* implementation with any subset of them takes; properties C06-C08 allow each.  A history is a path of the      *)
 (* machine along the fallback-free answers; a replayer that observes `alt` has left that path        *)
 (* legitimately and stops comparing the remaining steps.                                              *)
 StepRecL(v, o) ==
-    LET r == ApplyOpL(v, o, FALSE)
-        a == ApplyOpL(v, o, TRUE) IN
+    LET r == ApplyOpL(v, o, FbNone)
+        alts == IF o.op \in LikelyOps
+                THEN { [res |-> a.res, st |-> a.obj, ser |-> SerLoc(a.obj)] : a \in { ApplyOpL(v, o, fb) : fb \in CfgsFor(T, StrOf(v.id.lang)) } }
+                ELSE {} IN
     [op |-> o, res |-> r.res, st |-> r.obj, ser |-> SerLoc(r.obj), empties |-> IsEmptyFlags(r.obj),
-     alt |-> [res |-> a.res, st |-> a.obj, ser |-> SerLoc(a.obj)]]
-RunOpsL(v, ops) == FoldLeft(LAMBDA acc, o : ApplyOpL(acc, o, FALSE).obj, v, ops)
+     alt |-> SetToSeq(alts)]
+RunOpsL(v, ops) == FoldLeft(LAMBDA acc, o : ApplyOpL(acc, o, FbNone).obj, v, ops)
 StepsOfL(v, ops) == [k \in 1..Len(ops) |-> StepRecL(RunOpsL(v, SubSeq(ops, 1, k - 1)), ops[k])]
 =============================================================================
